@@ -21,11 +21,13 @@ _leaf_start` of every node for every (n, page_size), n <= 200; tree lengths.
 import itertools
 import math
 import pickle
+import sys
 
 import numpy as np
 
 from . import common as C
 from . import c03_util as U
+from . import c03_float as F
 
 ANCHOR_FILES = ['spatialpandas/spatialindex/rtree.py', 'spatialpandas/utils.py']
 TRUSTED = ['numpy basic slicing (clipping at the length), boolean-mask indexing and nanmin/nanmax '
@@ -34,7 +36,12 @@ TRUSTED = ['numpy basic slicing (clipping at the length), boolean-mask indexing 
            'under numba, not proved)',
            'the model is run with keys = identity; by theorem C03_independent the answers are the '
            'same sets for every permutation (hence for the Hilbert order the real index uses)',
-           'float64 comparisons of the exactly representable grid values = integer comparisons']
+           'float64 comparisons of the exactly representable grid values = integer comparisons',
+           'c03_float.py: float64 <, <=, >, >=, nanmin, nanmax on non-NaN doubles (infinities included) '
+           'are those of the linear order of the values, so the model evaluated on the RANKS of the '
+           'distinct doubles decides them (theorem C03_monotone: the model is invariant under strictly '
+           'increasing renamings; C03_unbounded_query: a side beyond all data = an absent constraint); '
+           'validated on every run against the brute-force oracle that compares the doubles themselves']
 
 IMPORTS = 'Model.Num Model.Rtree Model.RtreeCheck'
 # readable form (replay / diagnosis): sorted index lists
@@ -398,7 +405,20 @@ def run(rep):
                 'pickle) with the model on keys=identity (C03_independent) and with a brute-force '
                 'oracle; internals (_keys, _bounds_tree, node ranges) are optional extras.  One '
                 'evaluation = one query on one build (three results).  A query is non-trivial when it '
-                'matches some but not all finite rows; distinct = distinct (d, page_size, rows, query)')
+                'matches some but not all finite rows; distinct = distinct (d, page_size, rows, query).  '
+                'SECOND CLASS (harness/c03_float.py), same public comparison, oracle = brute force on the '
+                'doubles + the model on the ranks of the distinct values (C03_monotone): query boxes with '
+                'any subset of sides at -inf / +inf (half-lines, half-planes, everything, wrong way round), '
+                'huge (+-1e308, +-float max, 2^53, 1e16) / tiny (subnormal, 1e-11) / +-0.0 / many-digit '
+                'decimal sides, sides one ulp below / on / above a row side; rows with such coordinates '
+                'and rows with infinite sides beside NaN rows; d=1 exhaustive for n<=2 over row ends '
+                '{-inf,0,1,inf} x 64 queries over {-inf,-1e308,0,.5,1,1+ulp,1e308,inf} x every page size; '
+                'd=1,2,3 streams (300 grid builds with unbounded queries, 400 off-grid builds, 20-24 '
+                'queries each); 511/513/1030 rows at page size 512; the query passed as tuple / list / '
+                'ndarray / numpy scalars / strided view / float32 array / ints.  NaN query sides are not '
+                'asked (not a box).  Counted, not reported (decision of the orchestrator; same mechanism '
+                'C08 models and C13 counts): the constructor raises ZeroDivisionError for a box set of '
+                'total width 0 on an axis at |coordinate| >= 2^53')
     pub, pub1, itree, ifull = [], [], [], []
     nb = 0
     seen = set()
@@ -528,6 +548,15 @@ def run(rep):
     rep.extra['cpu_python_s'] = round(_t.process_time(), 1)
     rep.extra['t_builds_s'] = round(_t.time() - rep.t0, 1)
     run_reused(rep, tier)
+    # second input class: unbounded / huge / tiny / one-ulp / decimal coordinates (c03_float.py)
+    if not rep.violations:
+        F.run_float(rep, tier, sys.modules[__name__])
+        rep.extra['t_float_s'] = round(_t.time() - rep.t0, 1)
+    if rep.violations:
+        join()
+        rep.count('skipped-after-violation:sizes,internals')
+        run_log2(rep, tier)
+        return
     run_sizes(rep, tier)
     rep.extra['t_sizes_s'] = round(_t.time() - rep.t0, 1)
     join()
@@ -821,6 +850,8 @@ def replay(rep, rp):
             return float(e)
         return e
     rows, queries = un(rp['rows']), un(rp['queries'])
+    if str(rp.get('tag', '')).startswith('float:'):
+        return F.replay(rep, rp, sys.modules[__name__], rows, queries)
     b = Build(rp['d'], rows, rp['page_size'], rp['p'], queries, rp.get('tag', 'replay')).run()
     if b.error:
         print('impl raised', b.error)
